@@ -159,4 +159,18 @@ def validate_calculator_cache() -> str:
             "*replaces* self.results by a new dict (an aliased old dict is not cleared) and recomputes")
 
 
+def validate_calculator_reinit() -> str:
+    """Shipped ASE calculators with per-atom internal state rebuild it only when `numbers` is among the reported
+    system changes (EMT.initialize, LennardJones' neighbour list)."""
+    emt = norm(_func("calculators/emt.py", "calculate", "EMT"))
+    _require("if 'numbers' in system_changes" in emt and "self.initialize(self.atoms)" in emt and "self.nl.update" in emt,
+             "EMT.calculate no longer re-initialises its neighbour list exactly on a `numbers` change")
+    lj = norm(_func("calculators/lj.py", "calculate", "LennardJones"))
+    _require("'numbers' in system_changes" in lj and "self.nl.update" in lj, "LennardJones.calculate no longer rebuilds its neighbour list on a `numbers` change")
+    cmp_ = norm(_func("calculators/calculator.py", "compare_atoms"))
+    _require("len(atoms1) != len(atoms2)" in cmp_ or "len(atoms1.numbers) != len(atoms2.numbers)" in cmp_ or "all_changes" in cmp_, "compare_atoms no longer reports all changes for atom sets of different length")
+    return ("ASE calculators keeping per-atom state (EMT, LennardJones) rebuild it only when `numbers` is among the changes get_property derives from "
+            "calc.atoms vs the live atoms; otherwise they update it in place (nl.update) assuming the same atom count")
+
+
 COMPARE_COMPONENTS = ("positions", "numbers", "cell")
